@@ -5,6 +5,7 @@ namespace hx_queues_ms {
 template <class R>
 using MS = xenium::michael_scott_queue<int, xenium::policy::reclaimer<R>>;
 const Config cfgs[] = {
+  {"ms<string>/nebr1", make_str<xenium::michael_scott_queue<std::string, xenium::policy::reclaimer<rc::NEBR<1>>>>},
   {"ms/lfrc", make_int<MS<rc::LFRC>>},
   {"ms/lfrc_tl2", make_int<MS<rc::LFRC_TL2>>},
   {"ms/hp_s2_0_0", make_int<MS<rc::HP_S<2, 0, 0>>>},
